@@ -12,7 +12,7 @@ func runBidiCase[K comparable](c *core.Ctx, kind string, d *Dom[K]) {
 	a := newKVByKind(c, kind, d)
 	m := NewKVMon(c, a, d)
 	m.Bidi = true
-	c.SetGaps((c.Index/2)%2 == 1)
+	c.SetGaps((c.Index/8)%2 == 1)
 	nv := c.R.Range(4, 6)
 	var vals []int
 	for i := 0; i < nv; i++ {
